@@ -36,7 +36,7 @@ def _run(tier, seed, pid, faults):
     out.coverage = {
         "states": stats["distinct"], "transitions": stats["generated"],
         "traces_validated_against_impl": traces["validated"],
-        "configurations": len(cfgs),
+        "configurations": len(cfgs), "tlc_label_coverage": stats.get("action_coverage", {}),
         "kernels": sorted({c["kernel"] for c in cfgs}),
         "spec_behaviours": len(spec_map), "impl_behaviours": len(impl_map),
         "behaviours_identical": len(set(spec_map) & set(impl_map)),
